@@ -827,7 +827,8 @@ pub fn sample_program(seed: u64, index: u64, corpus: &Corpus) -> Program {
         files.retain(|k, _| keep.contains(k));
     }
     let _ = r.next();
-    Program { std_free: sc.family == "generated-project", label: format!("{}+{}faults", sc.family, sc.faults.len()), files, main: c.main.clone() }
+    // "does not use the standard library" = a generated project as generated; a storage fault may add anything
+    Program { std_free: sc.family == "generated-project" && sc.faults.is_empty(), label: format!("{}+{}faults", sc.family, sc.faults.len()), files, main: c.main.clone() }
 }
 
 // ------------------------------------------------------------------------------------
